@@ -7,7 +7,7 @@
 set -u
 P="$1"; NAME="${2:-$1}"; shift; shift || true
 CHECKS="${*:-$P}"
-WT=/tmp/seed-$P; OUT=/tmp/seedwork-$P/out; V=/verif; DEST=$V/seeded/$NAME
+R="${SEED_ROUND:-}"; WT=/tmp/seed$R-$P; OUT=/tmp/seedwork$R-$P/out; V=/verif; DEST=$V/seeded/$NAME
 [ -f "$OUT/patch.diff" ] || { echo "no patch for $P"; exit 2; }
 mkdir -p "$DEST"
 git -C $WT checkout -q -- . ; rm -rf $WT/_build
